@@ -60,6 +60,24 @@ CARRIERS: list[tuple[str, str, list[str]]] = [
     ("assert", "assert {}\n", ["a", ",", "b", "(", ")", "=", "*"]),
     ("raise", "raise {}\n", ["A", "from", "b", ",", "(", ")", "*", "None"]),
 ]
+# xonsh-side carriers (C03 / C04 / C11): help chains, environment targets, subprocess words, macro arguments
+X_HELP = ["a", "'s'", "?", "??", ".", "(", ")"]  # 7 lexemes: chains of five fit the quick bound
+X_HELP2 = ["a", "'s'", "1", "?", "??", ".", "(", ")", "$X", "[0]"]
+X_ENVT = ["$X", "${", "}", "a", "'k'", ".b", "[0]", "(", ")", ",", "*"]
+X_PROC = ["a", "-l", "'q s'", "$X", "@(", "@$(", ")", "|", ">", "!", "?", "`g*`", "$(", "![", "]", "="]
+X_MACRO = ["a", ",", "(", ")", "[", "]", "{", "}", "'s,'", "!", "$(", " ", "\n", "#c", ":"]
+X_WITH = ["a", "as", "b", ",", "(", ")", "$X", "!", ":"]
+XCARRIERS: list[tuple[str, str, list[str]]] = [
+    ("help", "{}\n", X_HELP),
+    ("help-arg", "f({}, 1)\n", X_HELP2),
+    ("envtarget", "{} = 1\n", X_ENVT),
+    ("envfor", "for {} in y: pass\n", X_ENVT),
+    ("subproc", "$({})\n", X_PROC),
+    ("subproc-sq", "r = ![{}]\n", X_PROC),
+    ("macro", "f!({})\n", X_MACRO),
+    ("macro-tail", "x = f!({}).y + 1\n", X_MACRO),
+    ("withmacro", "with! {}:\n    raw\nz = 1\n", X_WITH),
+]
 BY_NAME = {c[0]: i for i, c in enumerate(CARRIERS)}
 CAP = {"quick": 25_000, "thorough": 750_000}
 
@@ -85,9 +103,20 @@ def units(tier: str, only: list[str] | None = None, cap: int | None = None) -> l
     return us
 
 
+def xunits(tier: str, cap: int | None = None) -> list[tuple]:
+    us: list[tuple] = []
+    for ci, (name, _, V) in enumerate(XCARRIERS):
+        n = bound(V, tier, cap)
+        us.append(("xsub", ci, (), 1))
+        for i in range(len(V)):
+            for j in range(len(V)):
+                us.append(("xsub", ci, (i, j), n))
+    return us
+
+
 def expand(unit: tuple) -> Iterator[str]:
-    _, ci, prefix, n = unit
-    _, tmpl, V = CARRIERS[ci]
+    kind, ci, prefix, n = unit
+    _, tmpl, V = (XCARRIERS if kind == "xsub" else CARRIERS)[ci]
     pre, post = tmpl.split("{}")
     pre, post = pre.replace("{{", "{"), post.replace("}}", "}")
 
